@@ -104,13 +104,11 @@ def scanStringAux (q : Char) : List Char → Option (List Char × List Char)
     | some (str, rest) => some (c :: str, rest)
     | none => none
 
-/-- `strconv.ParseFloat` reports a range error (which `scanNumber` turns into a panic) when the
-decimal numeral rounds to +Inf: value ≥ (2^54 − 1)·2^970, the midpoint between the largest
-double and 2^1024.  `ip`/`fp` are the integer and fraction digits. -/
-def numOverflows (ip fp : List Char) : Bool :=
-  let digit (c : Char) : Nat := c.toNat - 48
-  let n := (ip ++ fp).foldl (fun a c => a * 10 + digit c) 0
-  ip.length > 300 && n ≥ (2^54 - 1) * 2^970 * 10^fp.length
+/-- Until the repair of 2026-09-28 `scanNumber` turned the range error that `strconv.ParseFloat` reports for a numeral
+that rounds to +Inf (value ≥ (2^54 − 1)·2^970) into a compile error; now the numeral is accepted and its value is the
+nearest double, +Inf (`if err != nil && !errors.Is(err, strconv.ErrRange)`).  The function is kept — constantly `false` —
+so that the lemmas stated with it keep their form. -/
+def numOverflows (_ip _fp : List Char) : Bool := false
 
 /-- one `nextItem` call -/
 def Scan.nextItem (s0 : Scan) : Except ScanErr Scan :=
